@@ -32,7 +32,12 @@ FILES = {
     "incnotdir.hera": '#include "ok.hera/inner.hera"\nSET(R1, 1)\n',
     "inclong.hera": '#include "' + "n" * 300 + '.hera"\n',
     "incloop.hera": '#include "selfloop.hera"\n',
+    "--throttle=5": "SET(R1, 1)\n",      # file names that look like flags: legal after `--`
+    "--quiet": "SET(R1, 2)\n",
 }
+# programs that load and run without any error or warning
+GOOD = ["ok.hera", "data.hera", "empty.hera", "-dash.hera", "--throttle=5", "--quiet", "include.hera"]
+AFTER_DASHES = ["--throttle=5", "--quiet", "--init=r1=5", "--throttle=abc", "--foo", "-dash.hera", "ok.hera", "--", "debug"]
 SUBCOMMANDS = ["debug", "assemble", "preprocess", "disassemble"]
 FLAGS = ["--big-stack", "--code", "--credits", "--data", "--help", "--no-color", "--no-debug-ops", "--obfuscate", "--quiet", "--stdout",
          "--verbose", "--version", "--warn-octal-off", "--warn-return-off", "-h", "-v", "-q"]
@@ -86,6 +91,9 @@ def gen_argv(rng):
         rng.shuffle(parts)
         if rng.random() < 0.1:
             parts.insert(rng.randrange(len(parts) + 1), ["--"])
+        elif rng.random() < 0.1:
+            # everything after `--` is a path, whatever it looks like
+            parts = [p for p in parts if p[0] not in PATHS and p[0] != "blocked.hera"] + [["--"], [rng.choice(AFTER_DASHES)]]
     else:
         # compatible, meaningful invocations
         mode = rng.choice(["", "assemble", "preprocess", "disassemble", "debug"])
@@ -190,6 +198,38 @@ def contract_problem(argv, r, d):
             name = a.split("=")[0] if a.startswith(("--throttle=", "--init=")) else a
             if name in allowed and mode not in allowed[name] and not info and r["code"] != 1:
                 return "{} is not an option of {} mode but exit status {} (must be a usage error)".format(name, mode or "run", r["code"])
+    # documented contract, the other way round, for plain run-mode vectors: only options that every run accepts, well-formed
+    # --throttle / --init, and exactly one path (before or after `--`) - this is never a usage error: status 3 when the
+    # file does not exist, 0 when it is a program without faults
+    if bad_flag is None and all(a.isascii() for a in argv):
+        after = argv[argv.index("--") + 1:] if "--" in argv else []
+        safe = {"--no-color", "--warn-octal-off", "--quiet", "-q", "--big-stack", "--warn-return-off"}
+        plain, positional, j = True, [], 0
+        while j < len(scan):
+            a = scan[j]
+            if a == "--throttle":
+                j += 2
+                continue
+            if a == "--init":
+                plain = plain and j + 1 < len(scan) and scan[j + 1] in ("r1=5", "r1=5,r2=7")
+                j += 2
+                continue
+            if a.startswith("--throttle="):
+                pass
+            elif a.startswith("--init="):
+                plain = plain and a in ("--init=r1=5", "--init=r1=5,r2=7")
+            elif a.startswith("-") and len(a) > 1:
+                plain = plain and a in safe
+            else:
+                positional.append(a)
+            j += 1
+        positional += after
+        if plain and len(positional) == 1 and positional[0] not in SUBCOMMANDS + ["-", "", "--"]:
+            path = positional[0]
+            if not os.path.lexists(os.path.join(d, path)) and r["code"] != 3:
+                return "the only path {!r} does not exist but the exit status is {} (must be 3)".format(path, r["code"])
+            if path in GOOD and r["code"] != 0:
+                return "a faultless program {!r} with well-formed options ends with status {} (must be 0)".format(path, r["code"])
     if r["code"] == 1:
         if r["out"]:
             return "usage error (status 1) but something was written to stdout: {!r}".format(r["out"][:60])
